@@ -149,7 +149,7 @@ class WorkChain(mixins.ContextMixin, processes.Process):
 
         # Ask the stepper to save itself
         if self._stepper is not None:
-            out_state[self._STEPPER_STATE] = self._stepper.save()
+            out_state[self._STEPPER_STATE] = self._stepper.save(save_context)
 
     def load_instance_state(self, saved_state: SAVED_STATE_TYPE, load_context: persistence.LoadSaveContext) -> None:
         super().load_instance_state(saved_state, load_context)
@@ -322,7 +322,7 @@ class _BlockStepper(Stepper):
     def save_instance_state(self, out_state: SAVED_STATE_TYPE, save_context: persistence.LoadSaveContext) -> None:
         super().save_instance_state(out_state, save_context)
         if self._child_stepper is not None:
-            out_state[STEPPER_STATE] = self._child_stepper.save()
+            out_state[STEPPER_STATE] = self._child_stepper.save(save_context)
 
     def load_instance_state(self, saved_state: SAVED_STATE_TYPE, load_context: persistence.LoadSaveContext) -> None:
         super().load_instance_state(saved_state, load_context)
@@ -460,7 +460,7 @@ class _IfStepper(Stepper):
     def save_instance_state(self, out_state: SAVED_STATE_TYPE, save_context: persistence.LoadSaveContext) -> None:
         super().save_instance_state(out_state, save_context)
         if self._child_stepper is not None:
-            out_state[STEPPER_STATE] = self._child_stepper.save()
+            out_state[STEPPER_STATE] = self._child_stepper.save(save_context)
 
     def load_instance_state(self, saved_state: SAVED_STATE_TYPE, load_context: persistence.LoadSaveContext) -> None:
         super().load_instance_state(saved_state, load_context)
@@ -554,7 +554,7 @@ class _WhileStepper(Stepper):
     def save_instance_state(self, out_state: SAVED_STATE_TYPE, save_context: persistence.LoadSaveContext) -> None:
         super().save_instance_state(out_state, save_context)
         if self._child_stepper is not None:
-            out_state[STEPPER_STATE] = self._child_stepper.save()
+            out_state[STEPPER_STATE] = self._child_stepper.save(save_context)
 
     def load_instance_state(self, saved_state: SAVED_STATE_TYPE, load_context: persistence.LoadSaveContext) -> None:
         super().load_instance_state(saved_state, load_context)
